@@ -14,7 +14,7 @@ import vlib
 
 def body(c):
     nvks = (1, 2) if c.quick else (1, 2, 3)
-    C12.body(c, prop="C13", kinds='{"val", "del", "disc", "merge"}', nvks=nvks,
+    C12.body(c, prop="C13", kinds='{"val", "del", "exp", "disc", "merge"}', nvks=nvks,
              invariants=("Retention", "ReadStableNoMerge", "Structure", "NoInvention"))
 
 
